@@ -94,6 +94,7 @@ def fragS (tbl : List Gen.Entry) : Structure → Bool
   | .whileS (some c) body => fragL tbl c && fragL tbl body
   | .lam _ body => fragL tbl body
   | .lamOp k body => fragL tbl body && fragTok tbl ⟨.general, lamOpKey k⟩
+  | .listS items => fragLL tbl items
   | _ => false
 def fragL (tbl : List Gen.Entry) : List Structure → Bool
   | [] => true
